@@ -650,7 +650,8 @@ class Variant(productmd.composeinfo.VariantBase):
             raise ValueError("Invalid variant UID value: %s" % uid)
 
         self.uid = uid
-        if addon:
+        if addon and not parser.has_section("variant-" + uid):
+            # a child is written as [variant-UID] unless its type is "addon"
             self.type = "addon"
 
         # variant details
